@@ -14,7 +14,8 @@
 EXTENDS Values, SequencesExt, TLC
 
 NONE == 0                                   \* the absent vertex (inside a missing @optional)
-FlatMap(s, F(_)) == FlattenSeq([i \in 1..Len(s) |-> F(s[i])])
+\* `<<>> \o` forces the sequence once: a lazily built function would be re-evaluated at every application inside FlattenSeq
+FlatMap(s, F(_)) == FlattenSeq(<<>> \o [i \in 1..Len(s) |-> F(s[i])])
 
 (* ---------------- schema and graph access ---------------- *)
 Vert(g, id) == g.verts[id]                  \* vertices are numbered 1..n in order
@@ -169,11 +170,20 @@ RootType(inst) == IF inst.q.coerce # "" THEN inst.q.coerce ELSE inst.schema.root
 RowsFrom(inst, s) == LET envs == EvalScope(inst, inst.q, RootType(inst), s, "", EmptyEnv) IN [i \in 1..Len(envs) |-> envs[i].outs]
 Rows(inst) == FlatMap(Starts(inst), LAMBDA s : RowsFrom(inst, s))
 
-(* ---------------- comparing rows and bags of rows ---------------- *)
-RowEq(a, b) ==
-  /\ Len(a) = Len(b)
-  /\ \A i \in 1..Len(a) : \E j \in 1..Len(b) : b[j][1] = a[i][1] /\ ValueEq(a[i][2], b[j][2])
-CountIn(rows, r) == Cardinality({x \in 1..Len(rows) : RowEq(r, rows[x])})
-BagEq(a, b) == Len(a) = Len(b) /\ \A i \in 1..Len(a) : CountIn(a, a[i]) = CountIn(b, a[i])
-BagSubset(a, b) == \A i \in 1..Len(a) : CountIn(a, a[i]) <= CountIn(b, a[i])
+(* ---------------- comparing rows and bags of rows ----------------
+   A row is turned into a function  output name -> normalised value  (the signed / unsigned representation of an integer is
+   dropped, which is all that ValueEq ignores), so that rows can be compared with TLC's built-in equality.               *)
+RECURSIVE Norm(_)
+Norm(v) == IF v.k = "int" THEN [k |-> "int", v |-> v.v]
+           ELSE IF v.k = "list" THEN [k |-> "list", v |-> [i \in 1..Len(v.v) |-> Norm(v.v[i])]]
+           ELSE v
+RowKey(r) == [n \in {r[i][1] : i \in 1..Len(r)} |-> Norm(r[CHOOSE i \in 1..Len(r) : r[i][1] = n][2])]
+Keys(rows) == <<>> \o [i \in 1..Len(rows) |-> RowKey(rows[i])]
+RowEq(a, b) == RowKey(a) = RowKey(b)
+CountKey(ks, k) == Cardinality({x \in 1..Len(ks) : ks[x] = k})
+BagEqK(ka, kb) == Len(ka) = Len(kb) /\ \A i \in 1..Len(ka) : CountKey(ka, ka[i]) = CountKey(kb, ka[i])
+BagSubsetK(ka, kb) == \A i \in 1..Len(ka) : CountKey(ka, ka[i]) <= CountKey(kb, ka[i])
+BagEq(a, b) == Len(a) = Len(b) /\ BagEqK(Keys(a), Keys(b))
+BagSubset(a, b) == BagSubsetK(Keys(a), Keys(b))
+CountIn(rows, r) == CountKey(Keys(rows), RowKey(r))
 =============================================================================
